@@ -53,7 +53,7 @@ func init() {
 	register(func() {
 		engine.Register(&engine.Check{
 			ID: "C20", Level: "model_checking",
-			Rule: "explicit-state search over the unfolder's key cache: capacities 0-4 (thorough 0-6) x 5 target types x documents of 1-3 by-reference keys over the alphabet {a,b,c,d,ab} (the key bytes are overwritten right after every callback); states = reflective fingerprint of the cache (recency-ordered key list); all histories to the unpruned depth, then breadth first to a fixpoint / depth bound; on every transition the unfolded map equals the map produced by an identical unfolder without cache, all maps produced earlier in the history are still intact, and nothing panics; an LRU reference model labels transitions as hit / miss / eviction / re-insertion-after-eviction and all four must have been reached",
+			Rule:        "explicit-state search over the unfolder's key cache: capacities 0-4 (thorough 0-6) x 5 target types x documents of 1-3 by-reference keys over the alphabet {a,b,c,d,ab} (the key bytes are overwritten right after every callback); states = reflective fingerprint of the cache (recency-ordered key list); all histories to the unpruned depth, then breadth first to a fixpoint / depth bound; on every transition the unfolded map equals the map produced by an identical unfolder without cache, all maps produced earlier in the history are still intact, and nothing panics; an LRU reference model labels transitions as hit / miss / eviction / re-insertion-after-eviction and all four must have been reached",
 			Assumptions: []string{"key alphabet of 5 keys, documents of at most 3 keys"},
 			Families:    c20Families,
 			Bounds: func(tier string) map[string]interface{} {
